@@ -39,25 +39,25 @@ theorem deadCount_set_false {n i : Nat} (hi : i < n) :
       simpa using this
 
 /-- what a `push` whose copy constructor throws leaves behind -/
-theorem pushThrow_good {v : VRing α} (g : Good v) :
-    ∃ v', v.pushThrow = some v' ∧ v'.t = v.t ∧
+theorem pushThrowOrig_spec {v : VRing α} (g : Good v) :
+    ∃ v', v.pushThrowOrig = some v' ∧ v'.t = v.t ∧
       v'.live = (List.replicate v.t.buf.length true).set v.t.r.head.toNat false ∧
       v'.overLive = 0 ∧ v'.deadDtor = 0 ∧ v'.deadRead = 0 ∧
       v'.ctor = v.ctor ∧ v'.dtor = v.dtor + 1 := by
   have hlen := head_in_buf g
-  simp only [pushThrow, hlen, if_true]
+  simp only [pushThrowOrig, hlen, if_true]
   refine ⟨_, rfl, rfl, ?_, g.over, ?_, g.read, rfl, rfl⟩
   · simp only [destruct, g.live]
   · simp only [destruct, g.live, g.dead, getD_replicate_true hlen]; rfl
 
 /-- … and what happens to the dead slot afterwards: at scope exit, or at the next push -/
-theorem pushThrow_after {v v' : VRing α} (g : Good v) (e : v.pushThrow = some v') (x : α) :
+theorem pushThrowOrig_after {v v' : VRing α} (g : Good v) (e : v.pushThrowOrig = some v') (x : α) :
     v'.destroy.deadDtor = 1 ∧ v'.destroy.dtor = v'.destroy.ctor + 1 ∧
     ∃ v'', v'.push x = some v'' ∧ v''.deadDtor = 1 ∧ v''.overLive = 0 ∧
       v''.live = List.replicate v''.t.buf.length true ∧ v.t.push x = some v''.t := by
   have hlen := head_in_buf g
   have e' : v' = v.destruct v.t.r.head.toNat := by
-    simp only [pushThrow, hlen, if_true, Option.some.injEq] at e; exact e.symm
+    simp only [pushThrowOrig, hlen, if_true, Option.some.injEq] at e; exact e.symm
   subst e'
   refine ⟨?_, ?_, ?_⟩
   · simp only [destroy, invalidate, destruct, g.live, g.dead, getD_replicate_true hlen,
